@@ -748,5 +748,41 @@ theorem c01_shape_Overlay_handleSendTree :
      "if:(rt.Roster==nil)", "return:", "if:!o.treeStorage.IsRequested(rt.TreeMarshal.TreeID)",
      "return:", "TreeMarshal.MakeTree", "if:(err!=nil)", "return:", "o.RegisterTree"] := rfl
 
+theorem c01_shape_TreeNodeInstance_SendTo :
+    Shapes.treenode_TreeNodeInstance_SendTo =
+   ["if:(to==nil)", "return:xerrors.New(\"\")", "msgDispatchQueueMutex.Lock", "if:n.closing",
+     "msgDispatchQueueMutex.Unlock", "return:xerrors.New(\"\")", "msgDispatchQueueMutex.Unlock",
+     "configMut.Lock", "if:!n.sentTo[]", "configMut.Unlock", "overlay.SendToTreeNode", "tx.add",
+     "if:(err!=nil)", "return:xerrors.Errorf(\"\",err)", "return:nil"] := rfl
+
+theorem c01_shape_TreeNodeInstance_Broadcast :
+    Shapes.treenode_TreeNodeInstance_Broadcast =
+   ["n.List", "n.TreeNode", "node.Equal", "n.SendTo"] := rfl
+
+theorem c01_shape_TreeNodeInstance_Multicast :
+    Shapes.treenode_TreeNodeInstance_Multicast =
+   ["n.SendTo"] := rfl
+
+theorem c01_shape_TreeNodeInstance_SendToParent :
+    Shapes.treenode_TreeNodeInstance_SendToParent =
+   ["if:n.IsRoot()", "return:nil", "n.Parent", "n.SendTo", "if:(err!=nil)",
+     "return:xerrors.Errorf(\"\",err)", "return:nil"] := rfl
+
+theorem c01_shape_TreeNodeInstance_SendToChildren :
+    Shapes.treenode_TreeNodeInstance_SendToChildren =
+   ["if:n.IsLeaf()", "return:nil", "n.Children", "n.SendTo", "if:(err!=nil)",
+     "return:xerrors.Errorf(\"\",err)", "return:nil"] := rfl
+
+theorem c01_shape_TreeNodeInstance_SendToChildrenInParallel :
+    Shapes.treenode_TreeNodeInstance_SendToChildrenInParallel =
+   ["n.IsLeaf", "n.Children", "node.Name", "wg.Add", "go{", "n.SendTo", "eMut.Lock",
+     "eMut.Unlock", "wg.Done", "}", "wg.Wait"] := rfl
+
+theorem c01_shape_Overlay_SendToTreeNode :
+    Shapes.overlay_Overlay_SendToTreeNode =
+   ["from.ChangeTreeNodeID", "if:(c!=nil)", "tokenTo.ID", "io.Wrap", "if:(err!=nil)",
+     "return:0,xerrors.Errorf(\"\",err)", "if:(confMsg!=nil)", "server.Send", "else",
+     "server.Send", "if:(err!=nil)", "return:sentLen,err"] := rfl
+
 
 end C01
